@@ -409,3 +409,179 @@ Proof.
     split; [simpl; rewrite (proj1 (fixed_type_keeps _)); apply spec_embed|].
     split; [simpl; rewrite erase_fixed_type; apply erase_embed|discriminate].
 Qed.
+
+(* ====================================================================== *)
+(* statement contexts: Types.check on uniform values meeting a slot of their own type *)
+(* ====================================================================== *)
+Lemma accepts_same : forall l r top rf, spec_ty l = true -> spec_ty r = true -> erase l = erase r ->
+  accepts_from top rf l r = true.
+Proof.
+  induction l as [| | | | |f l IHl|f l IHl| | | |]; intros r top rf Hl Hr He;
+    destruct r; simpl in Hl, Hr, He; try discriminate; try reflexivity;
+    inversion He; simpl; apply IHl; assumption.
+Qed.
+
+Lemma check_accept_exact target n : spec_ty target = true -> good n (erase target) ->
+  check_accept target (ONode n false) = Accept target (shown_type n).
+Proof.
+  intros Ht (G1 & G2 & _). unfold check_accept, accepts.
+  rewrite (accepts_same target (node_type n) true false Ht G1 (eq_sym G2)).
+  rewrite (wrap_same n target Ht G1 G2). reflexivity.
+Qed.
+
+Lemma check_accept_any n s : good n s -> exists shown, check_accept TAny (ONode n false) = Accept TAny shown.
+Proof.
+  intros (G1 & G2 & G3). unfold check_accept.
+  assert (accepts TAny (node_type n) = true) as ->.
+  { destruct (node_type n); simpl in G1; try discriminate; reflexivity. }
+  assert (exists n', wrap_any n TAny = Some n') as (n' & ->).
+  { destruct (infer_node n) as [v|] eqn:Ei; [|contradiction].
+    destruct n; cbn [wrap_any node_type is_any]; cbv zeta;
+      match goal with |- exists _, (if ?c then _ else _) = _ => destruct c; [eauto|] end;
+      rewrite Ei; eauto. }
+  eauto.
+Qed.
+
+Section Contexts.
+  Context (e : expr) (k : kind) (s : sty).
+  Hypothesis (Hu : uniform e = true) (Hs : spec_tc e = Some (k, s)).
+
+  (* a value meeting a slot of its own type: assignment, parameter, variadic parameter, return *)
+  Theorem impl_value : exists shown,
+    check (CAssign s) e = Accept (fixed_type (embed s)) shown /\
+    check (CParam s) e = Accept (fixed_type (embed s)) shown /\
+    check (CVariadic s) e = Accept (fixed_type (embed s)) shown /\
+    check (CReturn s) e = Accept (embed s) shown.
+  Proof.
+    destruct (tc_uniform e Hu k s Hs) as (n & Hn & Hg). exists (shown_type n). unfold check. rewrite Hn.
+    assert (A : forall target, spec_ty target = true -> erase target = s ->
+              check_accept target (ONode n false) = Accept target (shown_type n)).
+    { intros target T1 T2. apply check_accept_exact; [exact T1|rewrite T2; exact Hg]. }
+    assert (F1 : spec_ty (fixed_type (embed s)) = true) by (rewrite (proj1 (fixed_type_keeps _)); apply spec_embed).
+    assert (F2 : erase (fixed_type (embed s)) = s) by (rewrite erase_fixed_type; apply erase_embed).
+    repeat split; apply A; auto using spec_embed, erase_embed.
+  Qed.
+
+  (* ... or a slot of type any *)
+  Theorem impl_value_any : exists shown, check (CAssign SAny) e = Accept TAny shown.
+  Proof.
+    destruct (tc_uniform e Hu k s Hs) as (n & Hn & Hg). unfold check. rewrite Hn. simpl fixed_type.
+    exact (check_accept_any n s Hg).
+  Qed.
+
+  Theorem impl_cond : s = SBool -> check CCond e = Accept TBool TBool.
+  Proof.
+    intros ->. destruct (tc_uniform e Hu k SBool Hs) as (n & Hn & G1 & G2 & _). unfold check. rewrite Hn.
+    destruct (node_type n); simpl in G1, G2; try discriminate. reflexivity.
+  Qed.
+
+  Theorem impl_decl : closed s = true -> exists T shown, check CDecl e = Accept T shown /\ erase T = s.
+  Proof.
+    intros Hc. destruct (tc_uniform e Hu k s Hs) as (n & Hn & G1 & G2 & G3). unfold check. rewrite Hn.
+    rewrite (spec_not_none _ G1).
+    assert (He : has_empty (node_type n) = false) by (apply closed_erase_inv; [exact G1|rewrite G2; exact Hc]).
+    rewrite (infer_id _ G1 He).
+    rewrite (wrap_same n (fixed_type (node_type n))).
+    - eexists. eexists. split; [reflexivity|]. rewrite erase_fixed_type. exact G2.
+    - rewrite (proj1 (fixed_type_keeps _)). exact G1.
+    - exact G1.
+    - symmetry. apply erase_fixed_type.
+  Qed.
+
+  Theorem impl_generic_array : is_array_b s = true -> exists shown, check CGenericArr e = Accept TGenArr shown.
+  Proof.
+    intros Ha. destruct (tc_uniform e Hu k s Hs) as (n & Hn & G1 & G2 & G3). unfold check, check_accept. rewrite Hn.
+    rewrite accepts_generic_array.
+    assert (is_array_name (node_type n) = true) as ->.
+    { destruct (node_type n); simpl in G1, G2; subst s; simpl in Ha; try discriminate; reflexivity. }
+    assert (wrap_any n TGenArr = Some n) as ->; [|eauto].
+    destruct n; cbn [wrap_any node_type is_any is_generic]; cbv zeta;
+      match goal with |- (if ?c then _ else _) = _ => destruct c; reflexivity end.
+  Qed.
+
+  Theorem impl_generic_map : is_map_b s = true -> exists shown, check CGenericMap e = Accept TGenMap shown.
+  Proof.
+    intros Ha. destruct (tc_uniform e Hu k s Hs) as (n & Hn & G1 & G2 & G3). unfold check, check_accept. rewrite Hn.
+    rewrite accepts_generic_map.
+    assert (is_map_name (node_type n) = true) as ->.
+    { destruct (node_type n); simpl in G1, G2; subst s; simpl in Ha; try discriminate; reflexivity. }
+    assert (wrap_any n TGenMap = Some n) as ->; [|eauto].
+    destruct n; cbn [wrap_any node_type is_any is_generic]; cbv zeta;
+      match goal with |- (if ?c then _ else _) = _ => destruct c; reflexivity end.
+  Qed.
+
+  (* the range operand: the same loop-variable type as the specification gives *)
+  Theorem impl_range : match s with SArr u => closed u = true | _ => True end ->
+    forall st sh, spec_check CRange e = SAccept st sh ->
+    exists T, check CRange e = Accept T T /\ erase T = st.
+  Proof.
+    intros Hc st sh Hsp. destruct (tc_uniform e Hu k s Hs) as (n & Hn & G1 & G2 & G3).
+    unfold spec_check in Hsp. rewrite Hs in Hsp. unfold check. rewrite Hn.
+    destruct (node_type n) as [| | | | |f u|f u| | | |]; simpl in G1, G2; try discriminate; subst s;
+      simpl in Hsp; try discriminate; inversion Hsp; subst; unfold range_var_type; simpl;
+      try (eexists; split; reflexivity).
+    rewrite (infer_id u G1 (closed_erase_inv u G1 Hc)). simpl.
+    eexists. split; [reflexivity|]. rewrite erase_fixed_type. symmetry.
+    clear -Hc. induction (erase u); simpl in *; try reflexivity; try discriminate; f_equal; auto.
+  Qed.
+End Contexts.
+
+(* ---------- assignment to a target chain ---------- *)
+Fixpoint uniform_steps (steps : list tstep) : bool :=
+  match steps with
+  | [] => true
+  | TIdx i :: r => uniform i && uniform_steps r
+  | _ :: r => uniform_steps r
+  end.
+
+Lemma target_outcome_ok : forall steps t ks st,
+  spec_ty t = true -> has_empty t = false -> uniform_steps steps = true ->
+  spec_steps steps = Some ks -> target_chain_s (erase t) ks = Some st ->
+  exists T, target_outcome t false steps = TNode T false /\ erase T = st /\ spec_ty T = true /\ has_empty T = false.
+Proof.
+  induction steps as [|stp steps IH]; intros t ks st Ht He Hu Hk Hc.
+  - simpl in Hk. inversion Hk; subst. simpl in Hc. inversion Hc; subst. exists t. auto.
+  - destruct stp as [i| |sl|ta].
+    + (* index step *)
+      simpl in Hu. apply andb_true_iff in Hu as [Hu1 Hu2]. simpl in Hk.
+      destruct (spec_tc i) as [[ki it]|] eqn:Ei; [|discriminate].
+      destruct (spec_steps steps) as [ks'|] eqn:Ek; [|discriminate]. inversion Hk; subst ks. simpl in Hc.
+      destruct (target_step_s (erase t) (SKIdx it)) as [t1|] eqn:Es; [|discriminate].
+      destruct (tc_uniform i Hu1 ki it Ei) as (inode & Hi & I1 & I2 & _).
+      pose proof (target_step_spec t (KIdx (node_type inode)) Ht He I1) as St.
+      change (erase_step (KIdx (node_type inode))) with (SKIdx (erase (node_type inode))) in St. rewrite I2, Es in St.
+      destruct St as (T1 & E1 & E2 & S1 & N1).
+      destruct (IH T1 ks' st S1 N1 Hu2 eq_refl) as (T & HT & R); [rewrite E2; exact Hc|].
+      exists T. split; [|exact R]. cbn [target_outcome]. rewrite Hi, E1.
+      destruct t; simpl in Ht, Es; try discriminate; simpl; exact HT.
+    + (* dot step *)
+      simpl in Hu. simpl in Hk.
+      destruct (spec_steps steps) as [ks'|] eqn:Ek; [|discriminate]. inversion Hk; subst ks. simpl in Hc.
+      destruct (target_step_s (erase t) SKDot) as [t1|] eqn:Es; [|discriminate].
+      pose proof (target_step_spec t KDot Ht He eq_refl) as St.
+      change (erase_step KDot) with SKDot in St. rewrite Es in St.
+      destruct St as (T1 & E1 & E2 & S1 & N1).
+      destruct (IH T1 ks' st S1 N1 Hu eq_refl) as (T & HT & R); [rewrite E2; exact Hc|].
+      exists T. split; [|exact R]. cbn [target_outcome]. rewrite E1. exact HT.
+    + simpl in Hk. destruct (spec_steps steps); [|discriminate]. inversion Hk; subst ks. simpl in Hc.
+      destruct (erase t); discriminate.
+    + simpl in Hk. destruct (spec_steps steps); [|discriminate]. inversion Hk; subst ks. simpl in Hc.
+      destruct (erase t); discriminate.
+Qed.
+
+(* v<steps> = e  with the value of exactly the target's type *)
+Theorem impl_assign_to e k root steps ks st :
+  uniform e = true -> closed root = true -> uniform_steps steps = true ->
+  spec_steps steps = Some ks -> target_chain_s root ks = Some st -> spec_tc e = Some (k, st) ->
+  exists T shown, check (CAssignTo root steps) e = Accept T shown /\ erase T = st.
+Proof.
+  intros Hu Hc Hus Hk Hch Hs.
+  assert (F1 : spec_ty (fixed_type (embed root)) = true) by (rewrite (proj1 (fixed_type_keeps _)); apply spec_embed).
+  assert (F2 : erase (fixed_type (embed root)) = root) by (rewrite erase_fixed_type; apply erase_embed).
+  assert (F3 : has_empty (fixed_type (embed root)) = false).
+  { rewrite (proj2 (fixed_type_keeps _)). apply closed_embed_iff. exact Hc. }
+  destruct (target_outcome_ok steps _ ks st F1 F3 Hus Hk) as (T & HT & T1 & T2 & T3); [rewrite F2; exact Hch|].
+  destruct (tc_uniform e Hu k st Hs) as (n & Hn & Hg).
+  exists T, (shown_type n). split; [|exact T1]. unfold check. rewrite HT, Hn.
+  rewrite (check_accept_exact T n T2); [reflexivity|rewrite T1; exact Hg].
+Qed.
